@@ -584,6 +584,25 @@ def peakPower (powers : List α) : Option α := powers[argmax powers]?
 
 end deepen2
 
+/-! ## Deepening round D — start values and bounds of the filter parameters -/
+
+section deepen3
+variable {α : Type} [RealLike α]
+
+/-- `DiodeModel().fitted_params` as `(initial, lower_bound, upper_bound(sample_rate))` -/
+def diodeParams (rate : α) : List (α × α × α) :=
+  [(14000.0, 1.0, rate / 2.0), (0.3, 0.0, 1.0)]
+
+/-- `filter.fitted_params` → `initial_values`, `lower_bounds()`, `upper_bounds(sample_rate)`:
+    `FixedDiodeModel` keeps `[parameter for fixed, parameter in zip(fixed_params, diode_params) if fixed is None]` -/
+def Filt.fittedParams : Filt α → α → List (α × α × α)
+  | .noFilter, _ => []
+  | .diode, rate => diodeParams rate
+  | .fixed fd al, rate =>
+    ((([fd, al] : List (Option α)).zip (diodeParams rate)).filter fun x => x.1.isNone).map (·.2)
+
+end deepen3
+
 /-! ## Line protocol -/
 
 def optFloat? (s : String) : Option (Option Float) :=
@@ -792,6 +811,18 @@ def handle : List String → Option String
     match fitValidate npts loss bias nAnl with
     | some e => some e.name
     | none => some "ok"
+  | "c11.fitbounds" :: rest => do
+    let (flt, rest) ← parseFilt? rest
+    match rest with
+    | [rate] =>
+      let rate ← float? rate
+      match flt.validate with
+      | some e => some e.name
+      | none =>
+        let ps := flt.fittedParams rate
+        some ("ok " ++ showFloatList (ps.map (·.1)) ++ " " ++ showFloatList (ps.map (·.2.1)) ++ " " ++
+          showFloatList (ps.map (·.2.2)))
+    | _ => none
   | _ => none
 
 end Verif.C11
